@@ -9,6 +9,7 @@ Decided clauses:
   R3  buffered standard output is flushed before the process is terminated with _exit/abort
 That the recorded line is the right line after optimisation/inlining is NOT decided.
 """
+import re
 import cfg
 import doraq
 import hirq
@@ -299,6 +300,72 @@ def rule_r3(chk, F):
             r.observe("print no longer writes through std::io::stdout(); R3's premise should be re-examined")
 
 
+def rule_r5(chk, F):
+    """The stack trace of a trap inside inlined code is rebuilt by the runtime from per-inline-site records
+    (callee, call-site location, parent record).  A record shared between two sites of the same callee names the
+    first site's line and caller chain for every later one — and the baseline compiler, which never inlines,
+    reports the true chain."""
+    r = chk.rule("C14.R5", "boots creates one inlined-function record per inline site: the recorder stores every "
+                           "one of its parameters (callee, type arguments, call-site location) in the record it "
+                           "pushes, on every path, and every inline site passes the location of the call being inlined")
+    D = F.dora()
+    recorders = []
+    for f, t in sorted(D.items()):
+        if not f.startswith("pkgs/boots/"):
+            continue
+        for fn in doraq.functions(t, f):
+            if fn.body is None:
+                continue
+            for c in doraq.calls(fn.body):
+                if c.name == "push" and c.args:
+                    inner = [k for k in doraq.calls(c.args[0])]
+                    inner = [k for k in inner if k.name == "InlinedFunction"]
+                    if inner:
+                        recorders.append((fn, c, inner[0]))
+    if not r.anchor("pkgs/boots: function that pushes an InlinedFunction record", recorders):
+        return
+    names = set()
+    for fn, push, ctor in recorders:
+        names.add(fn.name)
+        key = "%s::%s" % (fn.file, fn.qual)
+        params = [p for p, _t in fn.params() if p != "self"]
+        args_txt = " ".join(doraq.text(a) for a in ctor.args)
+        toks = set(re.findall(r"[A-Za-z_][A-Za-z0-9_]*", args_txt))
+        r.instance(key + ":record", sample={"params": params, "ctor_args": args_txt[:120]})
+        for pn in params:
+            if pn not in toks:
+                r.violation(key + ":param-%s-not-recorded" % pn,
+                            "parameter `%s` of the recorder does not reach the InlinedFunction record: inline sites "
+                            "that differ only in it share a record, so a trap in inlined code reports the wrong "
+                            "call-site line / caller chain" % pn, fn.where())
+        rets = [n for n in doraq.walk(fn.body) if doraq.is_node(n) and n[0] == "RETURN_EXPR"]
+        early = [n for n in rets if n[1] <= push.line]
+        if early:
+            r.violation(key + ":returns-without-recording",
+                        "the recorder can return (line %d) without pushing a new record: the inline site then shares "
+                        "the record — and with it the call-site location and parent chain — of an earlier site of the "
+                        "same callee; a trap in the later copy is reported with the first copy's caller lines, unlike "
+                        "the baseline compiler" % early[0][1], "%s:%d" % (fn.file, early[0][1]))
+    # inline sites
+    nsites = 0
+    for f, t in sorted(D.items()):
+        if not f.startswith("pkgs/boots/"):
+            continue
+        for fn in doraq.functions(t, f):
+            if fn.body is None:
+                continue
+            for c in doraq.calls(fn.body):
+                if c.name in names and c.recv is not None and fn.name not in names:
+                    nsites += 1
+                    locs = [doraq.text(a) for a in c.args if "location" in doraq.text(a).lower()]
+                    r.instance("%s::%s:inline-site" % (fn.file, fn.qual), sample={"args": [doraq.text(a)[:50] for a in c.args]})
+                    if not locs:
+                        r.violation("%s::%s:inline-site-without-location" % (fn.file, fn.qual),
+                                    "the inline site records the callee without the location of the call being inlined",
+                                    "%s:%d" % (fn.file, c.line))
+    r.floor("inline sites calling the recorder", nsites, 1)
+
+
 def run(chk, F):
     rule_r1(chk, F)
     rule_r2(chk, F)
@@ -306,6 +373,7 @@ def run(chk, F):
     # the trap's return address (where its position is recorded) must lie inside the function (engine of C10.R5)
     from rules import c10
     c10.rule_r5(chk, F, rid="C14.R4")
+    rule_r5(chk, F)
     chk.assumptions += [
         "decides provenance of positions, agreement of trap tables and flush-before-_exit; correctness of the "
         "recorded line after inlining/optimisation and frame-walk correctness are not decided",
